@@ -62,7 +62,12 @@ namespace occa {
     }
 
     void leftUnaryOpNode::print(printer &pout) const {
-      pout << op << *value;
+      pout << op;
+      // Keep two prefix operators apart: [- -x] must not print as [--x]
+      if (value->type() & exprNodeType::leftUnary) {
+        pout << ' ';
+      }
+      pout << *value;
     }
 
     void leftUnaryOpNode::debugPrint(const std::string &prefix) const {
